@@ -163,7 +163,9 @@ def weaktool_twin(model, where, fragA, fragB):
         outs.append(m)
     return outs
 
-def with_sandbox_provider(model):
+def with_sandbox_provider(model, pos=0):
+    """pos: position of the sandbox dependency among the dependencies of the root recipe; only the dependencies that
+    follow it are built inside the sandbox (a package may then be reachable inside and outside)"""
     m = copy.deepcopy(model)
     E = projgen._empty_step
     sb = {"root": False, "inherit": [], "depends": [], "environment": {}, "privateEnvironment": {}, "metaEnvironment": {},
@@ -171,7 +173,8 @@ def with_sandbox_provider(model):
           "checkoutDeterministic": False, "import": False, "shared": False, "relocatable": None, "tooldirs": False, "fp": False,
           "steps": {"checkout": E(), "build": dict(E(), script=870), "package": dict(E(), script=871)}}
     m["recipes"].append({"name": "sbox", "body": sb, "multi": None})
-    m["recipes"][0]["body"]["depends"].insert(0, {"name": "sbox", "use": ["sandbox"], "forward": True, "env": {}, "if": None,
+    deps = m["recipes"][0]["body"]["depends"]
+    deps.insert(0 if pos is True else min(int(pos), len(deps)), {"name": "sbox", "use": ["sandbox"], "forward": True, "env": {}, "if": None,
                                                   "checkoutDep": False, "tools": None})
     return m
 
